@@ -158,7 +158,17 @@ class Search:
             if os.path.exists(fn):
                 os.remove(fn)
             sim.save_to_file(fn)
-            advance(sim, 1)
+            gap = getattr(self, "gap", None) or "step"
+            if gap in ("step",):
+                advance(sim, 1)
+            elif gap == "reset":
+                sim.reset_integrator()                 # every integrator array of snapshot 0 vanishes
+            elif gap == "reset_step":
+                sim.reset_integrator(); advance(sim, 1)
+            elif gap == "remove_step":
+                apply_ops(sim, ["remove_last"]); advance(sim, 1)
+            elif gap == "switch_reset_step":
+                apply_ops(sim, ["switch:leapfrog"]); advance(sim, 1)
             sim.save_to_file(fn)
             with warnings.catch_warnings(record=True) as w:
                 warnings.simplefilter("always")
@@ -367,6 +377,7 @@ class Search:
         self.poke(a, "collisions_log_n", 5 * 2 ** 32 + 7, ctypes.c_int64)
         self.hist["dim|scale:counters_ge_2^32"] = self.hist.get("dim|scale:counters_ge_2^32", 0) + 1
         b0 = R.save(a)
+        self.gap = cfg.get("gap")
         r, warns = self.restore(a, path)
         if path in ("sa_index", "sim_file_snapshot", "bytes_archive"):
             b0 = R.save(a)        # these paths advance the original by one step; the restored state is the new one
@@ -712,6 +723,43 @@ def correspondence(c, exe, rb, info, R, cfgs):
         b2 = R.save(r)
         lines.append("LOADI %d %s | %s" % (R.addr(r), fields_line(ff), fields_line(f))); meta.append(("LOADI", cfg, b2, uses_tree(cfg)))
         n += 1
+    # difference-encoded archive snapshots: the model applies the delta of blob 1 (incl. the size-0 headers of arrays that
+    # VANISHED since snapshot 0) onto the decoded snapshot 0 and must predict the stream of the really restored snapshot
+    import tempfile as _tf, warnings as _w
+    tmpd = _tf.mkdtemp(prefix="c05corr.", dir=os.environ.get("VERIF_TMP", "/tmp"))
+    ndelta = 0
+    for integ, o in (("ias15", {}), ("whfast", {"safe_mode": 0}), ("mercurius", {"safe_mode": 0}), ("janus", {}), ("bs", {})):
+        for gap in ("reset", "step", "remove_step"):
+            cfg = {"integrator": integ, "o": o, "system": "close" if integ == "mercurius" else "planets", "save_after": 3, "gap": gap}
+            fn = os.path.join(tmpd, "d.bin")
+            if os.path.exists(fn):
+                os.remove(fn)
+            try:
+                a = build_sim(rb, cfg); advance(a, 3)
+                a.save_to_file(fn)
+                if gap == "reset":
+                    a.reset_integrator()
+                elif gap == "step":
+                    advance(a, 2)
+                else:
+                    apply_ops(a, ["remove_last"]); advance(a, 1)
+                a.save_to_file(fn)
+                with _w.catch_warnings():
+                    _w.simplefilter("ignore")
+                    r = rb.Simulationarchive(fn)[1]
+                with open(fn, "rb") as fh:
+                    hd, blobs = parse_archive(fh.read())
+            except Exception:
+                continue
+            if len(blobs) != 2:
+                c.corr_break("archive with two snapshots parses into %d blobs" % len(blobs), {"cfg": cfg})
+                continue
+            b2 = R.save(r)
+            vanished = [t for t, p_ in blobs[1] if len(p_) == 0 and t != END_ID]
+            lines.append("LOADI %d %s | %s" % (R.addr(r), fields_line(blobs[0]), fields_line(blobs[1])))
+            meta.append(("DELTA", cfg, b2, vanished))
+            ndelta += 1
+    shutil.rmtree(tmpd, ignore_errors=True)
     out = run_driver(exe, lines)
     if len(out) != len(lines):
         c.corr_break("driver returned %d lines for %d ops" % (len(out), len(lines)))
@@ -731,6 +779,17 @@ def correspondence(c, exe, rb, info, R, cfgs):
             continue
         warns = toks[1]
         mf = parse_fields_line(toks[toks.index("F") + 1:])
+        if m[0] == "DELTA":
+            _, cfg, b2, vanished = m
+            c.count(("DELTA", cfg_key(cfg)))
+            hist_v = c.cov.setdefault("delta_snapshots", {"compared": 0, "with_vanished_arrays": 0})
+            hist_v["compared"] += 1
+            hist_v["with_vanished_arrays"] += 1 if vanished else 0
+            rf = parse_stream(b2)[1]
+            if rf != mf:
+                c.corr_break("model (snapshot 0 + delta, %d vanished arrays) does not predict the stream of the really restored later snapshot: %s" % (
+                    len(vanished), R.first_difference(rf, mf)), {"cfg": cfg})
+            continue
         if m[0] == "DEC":
             _, cfg, b, h, t = m
             nfields += len(mf)
